@@ -2,7 +2,7 @@
 # usage: check_controls.sh <dir with <id>/patch.diff behaviour-preserving changes>
 # Applies each to a scratch copy of /repo's current tree and runs ALL properties' rules on it: any VIOLATED/UNDECIDED line is a false alarm.
 cd "$(dirname "$0")"; ./build.sh >/dev/null
-OUT=$1
+OUT=${1:-/verif/controls}
 S=$(mktemp -d /tmp/gabictl.XXXXXX); trap 'rm -rf "$S"' EXIT
 rsync -a --exclude .git /repo/ $S/base/
 one() {
